@@ -256,19 +256,31 @@ def input_terms(w, prefix='x'):
     return [tm.arg(w.in_ty, '%s%d' % (prefix, i)) for i in range(w.n_in)]
 
 
+_init_cache = {}
+
+
 def execute_wrapper(mod, w, summaries=None, inputs=None, prefix='x', init_tables=None):
     """init_tables: None = no dynamic initialisers are run first; 'all' or a set of global names = run those table
     initialisers (in llvm.global_ctors order) in the same state before the wrapper"""
     ex = Executor(mod, summaries)
+    ex.max_paths = int((w.meta or {}).get('max_paths', ex.max_paths))
     st = State()
     if init_tables is not None:
         from .irsym import summaries as SM
-        try:
-            st, _ = SM.run_initialisers(ex, st, None if init_tables == 'all' else init_tables)
-        except Unsupported as e:
+        ck = (id(mod), init_tables if isinstance(init_tables, str) else tuple(sorted(init_tables)))
+        if ck not in _init_cache:
+            try:
+                st0, _ = SM.run_initialisers(ex, st, None if init_tables == 'all' else init_tables)
+                _init_cache[ck] = (st0, None, set(ex.functions_entered))
+            except Unsupported as e:
+                _init_cache[ck] = (None, 'unsupported (table initialiser): %s' % e, set())
+        st0, err, fns = _init_cache[ck]
+        if err:
             res = WrapperResult()
-            res.error = 'unsupported (table initialiser): %s' % e
+            res.error = err
             return res
+        st = st0.clone()      # copy-on-write: the initialised tables are shared by every wrapper of the module
+        ex.functions_entered |= fns
     isz = FSIZE[w.in_ty]
     osz = FSIZE[w.out_ty]
     rin = st.new_region(max(1, w.n_in) * isz, 'arg', 'in')
